@@ -304,7 +304,7 @@ class Scenario:
             self.stage_width = len(stage)
             for entry, script in stage:
                 k += 1
-                th = threading.Thread(target=self.run_thread_body, args=(entry, script, k))
+                th = threading.Thread(target=self.run_thread_body, args=(entry, script, k), name='worker')
                 ths.append(th)
             for th in ths:
                 th.start()
